@@ -110,8 +110,19 @@ pub fn run(tier: Tier) -> Report {
     }
     // sizes crossing 8-bit and 16-bit boundaries of widths, heights and macroblock counts
     sizes.extend([(176, 144), (128, 96), (65, 33), (33, 65), (255, 1), (1, 255), (256, 16), (16, 256), (320, 8), (352, 288), (2048, 16), (16, 2064), (257, 17)]);
+    // medium sizes: every residue mod 16 just above 256 (quick) and above 512 / 1024 (thorough)
+    for r in 0..16u16 {
+        sizes.push((256 + r, 9));
+        sizes.push((9, 256 + r));
+    }
     if tier.thorough() {
         sizes.extend([(640, 16), (704, 576), (4096, 8), (8, 4112), (1024, 1024)]);
+        for base in [512u16, 1024] {
+            for r in 0..16u16 {
+                sizes.push((base + r, 17));
+                sizes.push((17, base + r));
+            }
+        }
     }
     for &(w, h) in &sizes {
         for hdr in hdr_kinds(w, h, 5, false, 1) {
